@@ -40,6 +40,7 @@ func runStepsKeep(t *testing.T, s *Stream, c *SrvConf, steps []scriptStep, tag s
 		}
 		trx := time.Now().UnixNano()
 		env.Take()
+		s.Pending(append(append([]string{cfgLine}, mon.hist...), fmt.Sprintf("rx t=%d b=%s d=0 tend=%d probes=-", trx, Hex(frame), trx)))
 		env.Seg.Inject(0x0800, frame)
 		time.Sleep(settle)
 		synctest.Wait()
